@@ -1240,4 +1240,214 @@ example :
     sysDvect atoms v true true true (.idx 0) (.list [1, 2]) = .ok (false, [⟨-1, 0, 0⟩, ⟨1, 1, 1⟩]) := by
   decide +kernel
 
+/-! ### a condition on the CELL alone under which the 27 candidates contain the true nearest image -/
+
+/-- how far a relative separation component can be brought towards zero by a candidate shift: `1/2` on a periodic
+    axis (`[-1,1]` shifted by -1, 0 or 1), `1` on a non-periodic one (no shift). -/
+def halfw (p : Bool) : K := if p then 1 / 2 else 1
+
+/-- the **cover bound** of a cell: an upper bound, from the Gram matrix of the cell vectors alone, of the squared
+    length of `t·vects` for every `t` with `|tᵢ| ≤ halfw pᵢ` — hence of the shortest of the 27 candidates for any
+    two points of the cell.  All-periodic: `¼ (|a|² + |b|² + |c|² + 2|a·b| + 2|a·c| + 2|b·c|)`. -/
+def coverBound (V : M3 K) (px py pz : Bool) : K :=
+  halfw px * halfw px * V3.normSq V.r0 + halfw py * halfw py * V3.normSq V.r1 + halfw pz * halfw pz * V3.normSq V.r2
+    + 2 * (halfw px * halfw py * |V3.dot V.r0 V.r1|) + 2 * (halfw px * halfw pz * |V3.dot V.r0 V.r2|)
+    + 2 * (halfw py * halfw pz * |V3.dot V.r1 V.r2|)
+
+theorem halfw_pos (p : Bool) : (0 : K) < halfw p := by
+  cases p <;> simp [halfw]
+
+theorem prod_le_abs (u v P hu hv : K) (h1 : |u| ≤ hu) (h2 : |v| ≤ hv) : u * v * P ≤ hu * hv * |P| := by
+  have hu0 : 0 ≤ hu := le_trans (abs_nonneg u) h1
+  calc u * v * P ≤ |u * v * P| := le_abs_self _
+    _ = |u| * |v| * |P| := by rw [abs_mul, abs_mul]
+    _ ≤ hu * hv * |P| :=
+        mul_le_mul_of_nonneg_right (mul_le_mul h1 h2 (abs_nonneg _) hu0) (abs_nonneg _)
+
+theorem sq_le_of_abs (u hu : K) (h1 : |u| ≤ hu) : u ^ 2 ≤ hu * hu := by
+  have hu0 : 0 ≤ hu := le_trans (abs_nonneg u) h1
+  have := mul_le_mul h1 h1 (abs_nonneg _) hu0
+  rw [abs_mul_abs_self] at this
+  rw [pow_two]; exact this
+
+/-- the Gram bound: `|tᵢ| ≤ hᵢ` ⇒ `|t·V|² ≤ Σᵢⱼ hᵢ hⱼ |vᵢ·vⱼ|`. -/
+theorem normSq_vecMul_le (V : M3 K) (t : V3 K) (hx hy hz : K)
+    (h1 : |t.x| ≤ hx) (h2 : |t.y| ≤ hy) (h3 : |t.z| ≤ hz) :
+    V3.normSq (M3.vecMul t V) ≤
+      hx * hx * V3.normSq V.r0 + hy * hy * V3.normSq V.r1 + hz * hz * V3.normSq V.r2
+        + 2 * (hx * hy * |V3.dot V.r0 V.r1|) + 2 * (hx * hz * |V3.dot V.r0 V.r2|)
+        + 2 * (hy * hz * |V3.dot V.r1 V.r2|) := by
+  have e : V3.normSq (M3.vecMul t V)
+      = t.x^2 * V3.normSq V.r0 + t.y^2 * V3.normSq V.r1 + t.z^2 * V3.normSq V.r2
+        + 2 * (t.x * t.y * V3.dot V.r0 V.r1) + 2 * (t.x * t.z * V3.dot V.r0 V.r2)
+        + 2 * (t.y * t.z * V3.dot V.r1 V.r2) := by
+    simp only [V3.normSq, V3.dot, M3.vecMul]; ring
+  rw [e]
+  have a1 := mul_le_mul_of_nonneg_right (sq_le_of_abs _ _ h1) (normSq_nonneg V.r0)
+  have a2 := mul_le_mul_of_nonneg_right (sq_le_of_abs _ _ h2) (normSq_nonneg V.r1)
+  have a3 := mul_le_mul_of_nonneg_right (sq_le_of_abs _ _ h3) (normSq_nonneg V.r2)
+  have b1 := prod_le_abs t.x t.y (V3.dot V.r0 V.r1) hx hy h1 h2
+  have b2 := prod_le_abs t.x t.z (V3.dot V.r0 V.r2) hx hz h1 h3
+  have b3 := prod_le_abs t.y t.z (V3.dot V.r1 V.r2) hy hz h2 h3
+  linarith
+
+/-- a relative separation component in `[-1,1]` is brought into `[-1/2,1/2]` by a shift of -1, 0 or 1; on a
+    non-periodic axis it stays where it is. -/
+theorem reduce_comp (p : Bool) (δ : K) (hδ : -1 ≤ δ ∧ δ ≤ 1) :
+    ∃ m : Int, (m = -1 ∨ m = 0 ∨ m = 1) ∧ (p = false → m = 0) ∧ |δ + (m : K)| ≤ halfw p := by
+  cases p
+  · refine ⟨0, Or.inr (Or.inl rfl), fun _ => rfl, ?_⟩
+    simp only [halfw, Int.cast_zero, add_zero, Bool.false_eq_true, if_false]
+    exact abs_le.mpr hδ
+  · simp only [halfw, if_true]
+    by_cases h1 : δ ≤ -(1/2)
+    · refine ⟨1, Or.inr (Or.inr rfl), (fun h => absurd h (by decide)), ?_⟩
+      rw [abs_le]; push_cast; constructor <;> linarith [hδ.1]
+    · by_cases h2 : 1/2 ≤ δ
+      · refine ⟨-1, Or.inl rfl, (fun h => absurd h (by decide)), ?_⟩
+        rw [abs_le]; push_cast; constructor <;> linarith [hδ.2]
+      · refine ⟨0, Or.inr (Or.inl rfl), (fun h => absurd h (by decide)), ?_⟩
+        rw [abs_le]; push_cast; constructor <;> linarith
+
+/-- an image not longer than `R2`, with `R2 |ρ|² < 1`, of a separation whose `ρ`-component lies in `[-1,1]` has
+    shift -1, 0 or 1 along that axis. -/
+theorem comp_small_cover (e ρ : V3 K) (R2 δ : K) (k : Int) (hk : V3.dot e ρ = δ + (k : K))
+    (hδ : -1 ≤ δ ∧ δ ≤ 1) (he : V3.normSq e ≤ R2) (hw : R2 * V3.normSq ρ < 1) :
+    k = -1 ∨ k = 0 ∨ k = 1 := by
+  have c1 := cauchy_schwarz e ρ
+  have hρ := normSq_nonneg ρ
+  have h4 : V3.normSq e * V3.normSq ρ ≤ R2 * V3.normSq ρ := mul_le_mul_of_nonneg_right he hρ
+  have hq : (δ + (k : K))^2 < 1 := by rw [← hk]; linarith
+  have hlo : -2 < k := by
+    by_contra h
+    have h' : k ≤ -2 := by omega
+    have : (k : K) ≤ -2 := by exact_mod_cast h'
+    nlinarith
+  have hhi : k < 2 := by
+    by_contra h
+    have h' : 2 ≤ k := by omega
+    have : (2 : K) ≤ (k : K) := by exact_mod_cast h'
+    nlinarith
+  omega
+
+/-- **the cell condition, general form**: `det ≠ 0`, both points in the closed cell.  Let `R2` bound the squared
+    length of every combination `t·vects` with `|tᵢ| ≤ 1/2` on the periodic axes and `|tᵢ| ≤ 1` on the others.  If
+    `R2 < wᵢ²` (`wᵢ` the perpendicular width, `wᵢ² = 1/|recipᵢ|²`) on every periodic axis, then what the 27-candidate
+    search returns is the shortest image over ALL integer shifts `n : ℤ³` along the periodic directions — whatever the
+    two points, near or far. -/
+theorem cover_true_nearest (b : Box K) (hdet : M3.det b.vects ≠ 0) (px py pz : Bool) (R2 : K)
+    (hcov : ∀ t : V3 K, |t.x| ≤ halfw px → |t.y| ≤ halfw py → |t.z| ≤ halfw pz →
+      V3.normSq (M3.vecMul t b.vects) ≤ R2)
+    (hwx : px = true → R2 * V3.normSq b.recip.r0 < 1)
+    (hwy : py = true → R2 * V3.normSq b.recip.r1 < 1)
+    (hwz : pz = true → R2 * V3.normSq b.recip.r2 < 1)
+    (p0 p1 : V3 K) (h0 : InCell b p0) (h1 : InCell b p1) (n : Shift) (hn : n.respects px py pz) :
+    V3.normSq (dvect b.vects px py pz p0 p1) ≤ V3.normSq ((p1 - p0) + latticeVec b.vects n) := by
+  obtain ⟨d0, d1, d2⟩ := incell_delta b p0 p1 h0 h1
+  obtain ⟨mx, hmx, hmx0, hx⟩ := reduce_comp px _ d0
+  obtain ⟨my, hmy, hmy0, hy⟩ := reduce_comp py _ d1
+  obtain ⟨mz, hmz, hmz0, hz⟩ := reduce_comp pz _ d2
+  have hadm : Shift.admissible (mx, my, mz) px py pz := ⟨hmx, hmy, hmz, hmx0, hmy0, hmz0⟩
+  have hmin := dvect_min27 b.vects px py pz p0 p1 (mx, my, mz) hadm
+  have hR : V3.normSq (dvect b.vects px py pz p0 p1) ≤ R2 := by
+    refine le_trans hmin ?_
+    rw [← shiftBy_eq, image_decompose b hdet]
+    exact hcov _ hx hy hz
+  by_contra hlt
+  have hlt' := not_le.mp hlt
+  have he : V3.normSq (shiftBy b.vects (p1 - p0) n) ≤ R2 := by
+    rw [shiftBy_eq]; exact le_of_lt (lt_of_lt_of_le hlt' hR)
+  obtain ⟨n0, n1, n2⟩ := image_comp b hdet (p1 - p0) n
+  have hnadm : n.admissible px py pz := by
+    refine ⟨?_, ?_, ?_, hn⟩
+    · cases hpx : px
+      · right; left; exact hn.1 hpx
+      · exact comp_small_cover _ _ R2 _ _ n0 d0 he (hwx hpx)
+    · cases hpy : py
+      · right; left; exact hn.2.1 hpy
+      · exact comp_small_cover _ _ R2 _ _ n1 d1 he (hwy hpy)
+    · cases hpz : pz
+      · right; left; exact hn.2.2 hpz
+      · exact comp_small_cover _ _ R2 _ _ n2 d2 he (hwz hpz)
+  exact hlt (dvect_min27 b.vects px py pz p0 p1 n hnadm)
+
+/-- **the cell condition, closed form** (LAST CLAUSE for general tilted cells, no hypothesis on the pair): if the
+    cover bound of the cell — computed from the Gram matrix of its vectors, see `coverBound` — is below the squared
+    perpendicular width of every periodic axis, the periodic separation of ANY two points of the closed cell is a true
+    nearest image: not longer than the image through any `n : ℤ³` along the periodic directions. -/
+theorem gram_true_nearest (b : Box K) (hdet : M3.det b.vects ≠ 0) (px py pz : Bool)
+    (hwx : px = true → coverBound b.vects px py pz * V3.normSq b.recip.r0 < 1)
+    (hwy : py = true → coverBound b.vects px py pz * V3.normSq b.recip.r1 < 1)
+    (hwz : pz = true → coverBound b.vects px py pz * V3.normSq b.recip.r2 < 1)
+    (p0 p1 : V3 K) (h0 : InCell b p0) (h1 : InCell b p1) (n : Shift) (hn : n.respects px py pz) :
+    V3.normSq (dvect b.vects px py pz p0 p1) ≤ V3.normSq ((p1 - p0) + latticeVec b.vects n) ∧
+    dmag2 b.vects px py pz p0 p1 ≤ V3.normSq ((p1 - p0) + latticeVec b.vects n) := by
+  have h := cover_true_nearest b hdet px py pz (coverBound b.vects px py pz)
+    (fun t h1 h2 h3 => normSq_vecMul_le b.vects t _ _ _ h1 h2 h3) hwx hwy hwz p0 p1 h0 h1 n hn
+  exact ⟨h, by rw [dmag2_eq_normsq_dvect]; exact h⟩
+
+open Atomman.Generated in
+/-- the same about the kernels AS THE SOURCE READS NOW (generated `dvectC` / `dmag2C`). -/
+theorem source_true_nearest_gram (b : Box K) (hdet : M3.det b.vects ≠ 0) (px py pz : Bool)
+    (hwx : px = true → coverBound b.vects px py pz * V3.normSq b.recip.r0 < 1)
+    (hwy : py = true → coverBound b.vects px py pz * V3.normSq b.recip.r1 < 1)
+    (hwz : pz = true → coverBound b.vects px py pz * V3.normSq b.recip.r2 < 1)
+    (p0 p1 : V3 K) (h0 : InCell b p0) (h1 : InCell b p1) (n : Shift) (hn : n.respects px py pz) :
+    V3.normSq (DvectSource.dvectC p0 p1 b.vects px py pz) ≤ V3.normSq ((p1 - p0) + latticeVec b.vects n) ∧
+    DvectSource.dmag2C p0 p1 b.vects px py pz ≤ V3.normSq ((p1 - p0) + latticeVec b.vects n) := by
+  rw [Source.gen_dvectC_eq_model, Source.gen_dmag2C_eq_model]
+  exact gram_true_nearest b hdet px py pz hwx hwy hwz p0 p1 h0 h1 n hn
+
+/-- LAMMPS-normal cell whose tilt factors are within the LAMMPS limits (`|xy|, |xz| ≤ lx/2`, `|yz| ≤ ly/2`). -/
+def withinTiltLimits (b : Box K) : Prop :=
+  b.vects.r0.y = 0 ∧ b.vects.r0.z = 0 ∧ b.vects.r1.z = 0 ∧
+  0 < b.vects.r0.x ∧ 0 < b.vects.r1.y ∧ 0 < b.vects.r2.z ∧
+  2 * |b.vects.r1.x| ≤ b.vects.r0.x ∧ 2 * |b.vects.r2.x| ≤ b.vects.r0.x ∧ 2 * |b.vects.r2.y| ≤ b.vects.r1.y
+
+instance (b : Box ℚ) : Decidable (withinTiltLimits b) := by unfold withinTiltLimits; infer_instance
+instance (n : Shift) (px py pz : Bool) : Decidable (n.respects px py pz) := by unfold Shift.respects; infer_instance
+
+/-- **the condition cannot be dropped, not even within the LAMMPS tilt limits**: the flat cell `a = (5,0,0)`,
+    `b = (-1,1,0)`, `c = (0,0,1)` is LAMMPS-normal with `|xy| = 1 ≤ lx/2`; both points are strictly inside it
+    (relative coordinates `(3/4,1/8,1/2)` and `(1/4,7/8,1/2)`); the 27-candidate search returns a separation of squared
+    length `29/8`, while the image through `n = (0,-2,0)` — outside the search — has `25/8`.  (The cover bound of this
+    cell is `17/2`, far above its squared width `25/26` along `b`.)  So a cell being "within the tilt limits" does NOT
+    make the last clause of the property hold for every pair: a hypothesis such as that of `gram_true_nearest` (on the
+    cell) or of `tilted_true_nearest` (on the pair) is needed. -/
+theorem cell_condition_needed :
+    let b : Box ℚ := ⟨⟨⟨5, 0, 0⟩, ⟨-1, 1, 0⟩, ⟨0, 0, 1⟩⟩, ⟨0, 0, 0⟩⟩
+    let p0 : V3 ℚ := ⟨29/8, 1/8, 1/2⟩
+    let p1 : V3 ℚ := ⟨3/8, 7/8, 1/2⟩
+    withinTiltLimits b ∧ M3.det b.vects ≠ 0 ∧ InCell b p0 ∧ InCell b p1 ∧
+    Shift.respects (0, -2, 0) true true true ∧
+    V3.normSq (dvect b.vects true true true p0 p1) = 29/8 ∧
+    V3.normSq ((p1 - p0) + latticeVec b.vects (0, -2, 0)) = 25/8 ∧
+    V3.normSq ((p1 - p0) + latticeVec b.vects (0, -2, 0)) < V3.normSq (dvect b.vects true true true p0 p1) ∧
+    ¬ (coverBound b.vects true true true * V3.normSq b.recip.r1 < 1) := by
+  decide +kernel
+
+/-- … and outside the tilt limits (strongly sheared, `xy = 5/2·lx`): `n = (-2,0,0)` beats the search. -/
+theorem sheared_condition_needed :
+    let b : Box ℚ := ⟨⟨⟨1, 0, 0⟩, ⟨5/2, 1, 0⟩, ⟨0, 0, 1⟩⟩, ⟨0, 0, 0⟩⟩
+    let p0 : V3 ℚ := ⟨0, 0, 0⟩
+    let p1 : V3 ℚ := ⟨43/20, 1/2, 0⟩
+    M3.det b.vects ≠ 0 ∧ InCell b p0 ∧ InCell b p1 ∧ Shift.respects (-2, 0, 0) true true true ∧
+    V3.normSq ((p1 - p0) + latticeVec b.vects (-2, 0, 0)) < V3.normSq (dvect b.vects true true true p0 p1) := by
+  decide +kernel
+
+/-- non-vacuity of `gram_true_nearest`: a tilted LAMMPS cell (`xy = lx/4`), all axes periodic, cover bound `57/4`
+    below the squared widths `256/17`, `16`, `16`; a pair in the cell whose nearest image (`|·|² = 41/4`) is NOT
+    shorter than half the smallest width (so `tilted_true_nearest` says nothing about it); and with the third axis
+    non-periodic. -/
+example :
+    let b : Box ℚ := ⟨⟨⟨4, 0, 0⟩, ⟨1, 4, 0⟩, ⟨0, 0, 4⟩⟩, ⟨1, -2, 3⟩⟩
+    M3.det b.vects ≠ 0 ∧ withinTiltLimits b ∧ coverBound b.vects true true true = 57/4 ∧
+    coverBound b.vects true true true * V3.normSq b.recip.r0 < 1 ∧
+    coverBound b.vects true true true * V3.normSq b.recip.r1 < 1 ∧
+    coverBound b.vects true true true * V3.normSq b.recip.r2 < 1 ∧
+    InCell b ⟨1, -2, 3⟩ ∧ InCell b ⟨7/2, 0, 5⟩ ∧
+    V3.normSq (dvect b.vects true true true ⟨1, -2, 3⟩ ⟨7/2, 0, 5⟩) = 41/4 ∧
+    ¬ (4 * V3.normSq (dvect b.vects true true true ⟨1, -2, 3⟩ ⟨7/2, 0, 5⟩) < 256/17) := by
+  decide +kernel
+
 end Atomman.C02
